@@ -1,0 +1,7 @@
+//! Verification hooks (only compiled with `--features verif`).
+//! Re-exports of crate-private items that the external verification harness calls directly.
+
+pub mod polysmallmod { pub use crate::util::polysmallmod::*; }
+pub mod dwthandler { pub use crate::util::dwthandler::*; }
+pub mod scaling_variant { pub use crate::util::scaling_variant::*; }
+pub mod hash { pub use crate::util::hash::*; }
